@@ -3,8 +3,9 @@
    FINDINGS recorded here (each confirmed on the crate itself and against expat):
    (1) a comment body / a PI value is the raw source slice: CR is kept, no line-end normalisation;
    (2) DOCTYPE name, entity names, PI targets are Names with ':' as an ordinary name character;
-   (3) a skipped declaration (ELEMENT / ATTLIST / NOTATION) ends at the FIRST '>', quotes are not honoured: a well-formed
-       DOCTYPE is rejected (3a) or mis-read -- a declaration hidden inside a system literal is executed (3b);
+   (3) [defect D22, REPAIRED: the evaluations below show the repaired behaviour] a skipped declaration (ELEMENT /
+       ATTLIST / NOTATION) used to end at the FIRST '>', quotes not honoured: a well-formed DOCTYPE was rejected (3a) or
+       mis-read -- a declaration hidden inside a system literal was executed (3b); quotes are now honoured;
    (4) '%' in an entity literal is an ordinary character (never a parameter-entity reference, never an error). *)
 From Coq Require Import Ascii String.
 From Coq Require Import List NArith Bool.
@@ -63,10 +64,11 @@ Definition run (s : string) : option (list CstNs.vnode) + option error :=
   match parse (b s) opt_dtd with Ok d => inl (view (b s) d) | Err e => inr (Some e) | _ => inr None end.
 (* (2) entity names with colons are accepted too (outside the fragment) *)
 Eval vm_compute in run "<!DOCTYPE a:b [<!ENTITY x:y 'v'><!ENTITY :e:f: 'w'>]><a><?p:q r?>&x:y;&:e:f:;</a>".
-(* (3a) well-formed, rejected *)
+(* (3a) well-formed: accepted (before the repair of D22: Err UnknownToken (1,36)) *)
 Eval vm_compute in run "<!DOCTYPE a [<!NOTATION n SYSTEM '>'>]><a/>".
 Eval vm_compute in run "<!DOCTYPE a [<!ATTLIST a b CDATA '>'>]><a/>".
-(* (3b) well-formed (&e; is NOT declared: the text is inside the system literal), accepted with the text "evil" *)
+(* (3b) well-formed, but &e; is NOT declared (the text is inside the system literal): Err UnknownEntityReference
+   (before the repair of D22: accepted with the text "evil") *)
 Eval vm_compute in run "<!DOCTYPE a [<!NOTATION n SYSTEM '><!ENTITY e ""evil""><!ELEMENT x '>]><a>&e;</a>".
 Eval vm_compute in run "<!DOCTYPE a [<!NOTATION n SYSTEM 'u'>]><a>&e;</a>".
 (* (4) '%' in an entity literal *)
